@@ -46,7 +46,7 @@ class C13(Check):
             "ordering of which limit bites first occurs, including limits met at the first evaluation. Observers count evaluate/refine calls "
             "and record the result and the stub's own distinct-point count at every evaluation. A state is the refinement structure; "
             "distinct_nontrivial counts distinct structures at the stop of a run")
-    expected_probes = ["continued_with_new_limits", "error_equals_tolerance_at_stop", "points_equal_minimum_at_stop", "stop_by_tolerance", "stop_by_max", "stop_at_first_evaluation", "min_evaluations_delayed_stop", "zero_reference", "uq_operation"]
+    expected_probes = ["continued_with_new_limits", "continued_restored_instance", "error_equals_tolerance_at_stop", "points_equal_minimum_at_stop", "stop_by_tolerance", "stop_by_max", "stop_at_first_evaluation", "min_evaluations_delayed_stop", "zero_reference", "uq_operation"]
     assumptions = ["the library's documented error norm (mean-normalised p-norm of the component-wise relative deviation) is taken as the definition",
                    "runs that do not stop within the evaluation cap are excluded, not judged (every configuration carries a finite maximum)"]
     excluded_configs = ["reference vectors with some but not all components zero (relative error undefined)",
@@ -104,6 +104,10 @@ class C13(Check):
             lim2 = {"tol": r.choice([0.0, 0.05, 0.3, 1.0, 3.0, 50.0]), "min_evaluations": r.choice([1, 1, 20, 60, 150]),
                     "max_evaluations": mx + r.choice([0, 5, 30, 100, 200])}
             ops_extra = [["continue", lim2]]
+            if r.random() < 0.3:
+                # the continued object is not the live one but what save_to_file / restore_from_file give back (the counts and the
+                # stop rule of the continued run are judged exactly as for the live object)
+                lim2["via"] = "restored"
         if r.random() < 0.4:
             # boundary schedule: limits are set *exactly* onto values the run itself produces (learnt from an exploratory
             # twin with the same environment): tol == E[k], min == N[k] (+1), max == N[k] (-1)
@@ -178,6 +182,16 @@ class C13(Check):
         for op in sched["ops"][1:]:
             lim2 = op[1]
             start = sim.n_eval
+            if lim2.get("via") == "restored":
+                from simcore import seams
+                import sparseSpACE.StandardCombi as SC
+                from engines.resume_checks import model_of
+                with seams.quiet():
+                    sim.sa.save_to_file("mem://c13-checkpoint")
+                    sim.sa = sim.op = sim.f = sim.err = None
+                    sa2 = SC.StandardCombi.restore_from_file("mem://c13-checkpoint")
+                sim.sa, sim.op, sim.f, sim.err = sa2, sa2.operation, model_of(sa2.operation), sa2.errorEstimator
+                ctx.fault("save"); ctx.fault("crash_restore"); ctx.probe("continued_restored_instance")
             try:
                 res = sim.cont(tol=lim2["tol"], max_evaluations=lim2["max_evaluations"], min_evaluations=lim2["min_evaluations"])
             except DS.StopRun:
